@@ -30,7 +30,8 @@
    up earlier; the server may meanwhile accept a new object for the same id.
 
    Data structures of Model/Accounting.v (slices, pending entries, queue elements, the read functions)
-   are reused.  [fx] as there: true = linkedBuffer.recycle() also cleans the pinned list. *)
+   are reused.  [fx], [gx] as there: fx = linkedBuffer.recycle() also cleans the pinned list; gx = the write
+   operations refuse to allocate for a closed stream. *)
 From Coq Require Import List ZArith Bool Arith.
 From Shm Require Import Gen.Consts Model.Accounting.
 Import ListNotations.
@@ -53,7 +54,7 @@ Inductive lstate := LIdle | LHave (o : nat) (p : pentry) | LAdded (o : nat).
 Inductive sitem := SData (sid : nat) (bytes : Z) | SClose (sid : nat).
 
 Record cst := {
-  cfx : bool; cqcap : Z;
+  cfx : bool; cgx : bool; cqcap : Z;
   cfree : list Z; cext : list Z; cleaked : list Z;
   cq_srv : list qelem; cq_cli : list qelem;
   objs : nat -> obj; nobjs : nat;
@@ -76,51 +77,51 @@ Definition fresh_obj (e : bool) (sid : nat) : obj :=
      osendb := []; osheap := false; orecvb := []; ocpin := false; opinned := []; oscpin := false; orheap := false;
      opend := []; ocpc := O |}.
 
-Definition cinit (f : bool) (n : nat) (qc : Z) : cst :=
-  {| cfx := f; cqcap := qc; cfree := map Z.of_nat (seq 0 n); cext := []; cleaked := [];
+Definition cinit (f g : bool) (n : nat) (qc : Z) : cst :=
+  {| cfx := f; cgx := g; cqcap := qc; cfree := map Z.of_nat (seq 0 n); cext := []; cleaked := [];
      cq_srv := []; cq_cli := []; objs := fun _ => fresh_obj false O; nobjs := O;
      tbl := fun _ => None; loop_c := LIdle; loop_s := LIdle; sk_srv := []; sk_cli := [] |}.
 
 (* ---- setters ---- *)
 Definition set_obj (o : nat) (v : obj) (s : cst) : cst :=
-  {| cfx := cfx s; cqcap := cqcap s; cfree := cfree s; cext := cext s; cleaked := cleaked s;
+  {| cfx := cfx s; cgx := cgx s; cqcap := cqcap s; cfree := cfree s; cext := cext s; cleaked := cleaked s;
      cq_srv := cq_srv s; cq_cli := cq_cli s; objs := updn (objs s) o v; nobjs := nobjs s;
      tbl := tbl s; loop_c := loop_c s; loop_s := loop_s s; sk_srv := sk_srv s; sk_cli := sk_cli s |}.
 (* a new stream object registered in the table under its id *)
 Definition new_obj (v : obj) (s : cst) : cst :=
-  {| cfx := cfx s; cqcap := cqcap s; cfree := cfree s; cext := cext s; cleaked := cleaked s;
+  {| cfx := cfx s; cgx := cgx s; cqcap := cqcap s; cfree := cfree s; cext := cext s; cleaked := cleaked s;
      cq_srv := cq_srv s; cq_cli := cq_cli s; objs := updn (objs s) (nobjs s) v; nobjs := S (nobjs s);
      tbl := updn (tbl s) (key (oe v) (osid v)) (Some (nobjs s)); loop_c := loop_c s; loop_s := loop_s s; sk_srv := sk_srv s; sk_cli := sk_cli s |}.
 Definition set_tbl (k : nat) (v : option nat) (s : cst) : cst :=
-  {| cfx := cfx s; cqcap := cqcap s; cfree := cfree s; cext := cext s; cleaked := cleaked s;
+  {| cfx := cfx s; cgx := cgx s; cqcap := cqcap s; cfree := cfree s; cext := cext s; cleaked := cleaked s;
      cq_srv := cq_srv s; cq_cli := cq_cli s; objs := objs s; nobjs := nobjs s;
      tbl := updn (tbl s) k v; loop_c := loop_c s; loop_s := loop_s s; sk_srv := sk_srv s; sk_cli := sk_cli s |}.
 Definition cadd_free (l : list Z) (s : cst) : cst :=
-  {| cfx := cfx s; cqcap := cqcap s; cfree := cfree s ++ l; cext := cext s; cleaked := cleaked s;
+  {| cfx := cfx s; cgx := cgx s; cqcap := cqcap s; cfree := cfree s ++ l; cext := cext s; cleaked := cleaked s;
      cq_srv := cq_srv s; cq_cli := cq_cli s; objs := objs s; nobjs := nobjs s;
      tbl := tbl s; loop_c := loop_c s; loop_s := loop_s s; sk_srv := sk_srv s; sk_cli := sk_cli s |}.
 Definition cadd_leaked (l : list Z) (s : cst) : cst :=
-  {| cfx := cfx s; cqcap := cqcap s; cfree := cfree s; cext := cext s; cleaked := cleaked s ++ l;
+  {| cfx := cfx s; cgx := cgx s; cqcap := cqcap s; cfree := cfree s; cext := cext s; cleaked := cleaked s ++ l;
      cq_srv := cq_srv s; cq_cli := cq_cli s; objs := objs s; nobjs := nobjs s;
      tbl := tbl s; loop_c := loop_c s; loop_s := loop_s s; sk_srv := sk_srv s; sk_cli := sk_cli s |}.
 Definition cset_free_ext (f e : list Z) (s : cst) : cst :=
-  {| cfx := cfx s; cqcap := cqcap s; cfree := f; cext := e; cleaked := cleaked s;
+  {| cfx := cfx s; cgx := cgx s; cqcap := cqcap s; cfree := f; cext := e; cleaked := cleaked s;
      cq_srv := cq_srv s; cq_cli := cq_cli s; objs := objs s; nobjs := nobjs s;
      tbl := tbl s; loop_c := loop_c s; loop_s := loop_s s; sk_srv := sk_srv s; sk_cli := sk_cli s |}.
 Definition cqueue_to (to_srv : bool) (s : cst) : list qelem := if to_srv then cq_srv s else cq_cli s.
 Definition cset_queue (to_srv : bool) (q : list qelem) (s : cst) : cst :=
-  {| cfx := cfx s; cqcap := cqcap s; cfree := cfree s; cext := cext s; cleaked := cleaked s;
+  {| cfx := cfx s; cgx := cgx s; cqcap := cqcap s; cfree := cfree s; cext := cext s; cleaked := cleaked s;
      cq_srv := if to_srv then q else cq_srv s; cq_cli := if to_srv then cq_cli s else q;
      objs := objs s; nobjs := nobjs s; tbl := tbl s; loop_c := loop_c s; loop_s := loop_s s; sk_srv := sk_srv s; sk_cli := sk_cli s |}.
 Definition loop_of (e : bool) (s : cst) : lstate := if e then loop_s s else loop_c s.
 Definition set_loop (e : bool) (l : lstate) (s : cst) : cst :=
-  {| cfx := cfx s; cqcap := cqcap s; cfree := cfree s; cext := cext s; cleaked := cleaked s;
+  {| cfx := cfx s; cgx := cgx s; cqcap := cqcap s; cfree := cfree s; cext := cext s; cleaked := cleaked s;
      cq_srv := cq_srv s; cq_cli := cq_cli s; objs := objs s; nobjs := nobjs s; tbl := tbl s;
      loop_c := if e then loop_c s else l; loop_s := if e then l else loop_s s; sk_srv := sk_srv s; sk_cli := sk_cli s |}.
 
 Definition sock_to (to_srv : bool) (s : cst) : list sitem := if to_srv then sk_srv s else sk_cli s.
 Definition set_sock (to_srv : bool) (l : list sitem) (s : cst) : cst :=
-  {| cfx := cfx s; cqcap := cqcap s; cfree := cfree s; cext := cext s; cleaked := cleaked s;
+  {| cfx := cfx s; cgx := cgx s; cqcap := cqcap s; cfree := cfree s; cext := cext s; cleaked := cleaked s;
      cq_srv := cq_srv s; cq_cli := cq_cli s; objs := objs s; nobjs := nobjs s; tbl := tbl s;
      loop_c := loop_c s; loop_s := loop_s s;
      sk_srv := if to_srv then l else sk_srv s; sk_cli := if to_srv then sk_cli s else l |}.
@@ -170,7 +171,11 @@ Definition sock_close (e : bool) (sid : nat) (s : cst) : cst :=
 (* ---- user: write / flush ---- *)
 Definition c_write (o : nat) (new : list Z) (heap : bool) (s : cst) : option cst :=
   let v := objs s o in
-  if negb (usable o s) then None
+  (* the owner of a closed stream (its close() has returned): with gx the write operations return
+     ErrStreamClosed; without it they allocate into the send buffer that clean() has already left behind *)
+  let after_close := valid o s && oclosed v && Nat.eqb (ocpc v) 6 in
+  if after_close && cgx s then Some s
+  else if negb (usable o s || after_close) then None
   else if negb (subsetb new (cfree s) && nodupb new) then None
   else Some (set_obj o (upd_obj v (ohalf v) (oinfb v) (onotify v) (oclosed v) (osendb v ++ new) (osheap v || heap)
                                 (orecvb v) (ocpin v) (opinned v) (opend v) (ocpc v))
@@ -181,7 +186,7 @@ Definition sent (v : obj) (fb : bool) : obj :=
 
 Definition c_flush (o : nat) (sizes : list Z) (wpos : nat) (s : cst) : option cst :=
   let v := objs s o in
-  if negb (valid o s && Nat.eqb (ocpc v) 0) then None        (* the owner is not inside close() *)
+  if negb (valid o s && (Nat.eqb (ocpc v) 0 || Nat.eqb (ocpc v) 6)) then None        (* the owner is not inside close() *)
   else if sumz sizes <=? 0 then Some s
   else if oclosed v || ohalf v then
     Some (cadd_free (osendb v) (set_obj o (sent v (oinfb v)) s))
